@@ -99,6 +99,22 @@ def r151(ctx):
         ctx.bad(rid, f, "Path.reverse does not flip the velocity flag of the reversed frames")
     # the flag flip is conditional on rev_v and applied to every frame
     flips = [n for n in walk_local(f) if isinstance(n, ast.Call) and last_name(n) == "reverse_velocities"]
+    direct = [n for n in walk_local(f) if isinstance(n, ast.Assign) and isinstance(n.targets[0], ast.Attribute) and n.targets[0].attr == "vel_rev"]
+    for a in direct:
+        # a direct store must toggle that frame's own flag: x.vel_rev = not x.vel_rev / not <source frame of x>.vel_rev
+        v = a.value
+        recv = a.targets[0].value
+        own = {ast.unparse(recv)}
+        for kind, node, at, extra in fl.sources(recv, cfg.node_of(a)):
+            if kind == "expr" and _fresh_copy(node):
+                own.add(ast.unparse(node.func.value))
+        if isinstance(v, ast.UnaryOp) and isinstance(v.op, ast.Not) and isinstance(v.operand, ast.Attribute) and v.operand.attr == "vel_rev" and ast.unparse(v.operand.value) in own:
+            ctx.ok(rid, a, "Path.reverse toggles the frame's own velocity flag")
+        else:
+            ctx.bad(rid, a, "Path.reverse sets a frame's velocity flag to a value that is not the negation of that frame's own flag (a flag computed once for the whole path): frames of a path with mixed flags are not flipped individually and reversing twice does not restore them",
+                    construct=short(a, 70))
+    if not flips and not direct:
+        ctx.bad(rid, f, "Path.reverse never flips a frame's velocity flag")
     for c in flips:
         g = [ast.unparse(e) for e, t, _ in cfg.guards(cfg.node_of(c)) if t]
         if "rev_v" in g:
@@ -156,6 +172,8 @@ VARIANTS = [
     B("c15-right-default-by-truthiness", PATH, "        if right is None:\n            right = left\n        assert left <= right\n\n        if self.phasepoints[-1]", "        right = right or left\n        assert left <= right\n\n        if self.phasepoints[-1]", "R-15.2", control=True, why="seeded C15_a"),
     B("c15-right-default-if-not", PATH, "        if right is None:\n            right = left\n        assert left <= right\n        if self.phasepoints[0]", "        if not right:\n            right = left\n        assert left <= right\n        if self.phasepoints[0]", "R-15.2"),
     K("c15-keep-right-default-ifexp", PATH, "        if right is None:\n            right = left\n        assert left <= right\n\n        if self.phasepoints[-1]", "        right = left if right is None else right\n        assert left <= right\n\n        if self.phasepoints[-1]"),
+    B("c15-flag-hoisted-from-last-frame", PATH, "        for phasepoint in reversed(self.phasepoints):\n            new_point = phasepoint.copy()\n            if rev_v:\n                self.reverse_velocities(new_point)", "        flip = rev_v and self.length > 0\n        vel_rev = flip and not self.phasepoints[-1].vel_rev\n        for phasepoint in reversed(self.phasepoints):\n            new_point = phasepoint.copy()\n            if flip:\n                new_point.vel_rev = vel_rev", "R-15.1", why="seeded C15_b"),
+    K("c15-keep-inline-toggle", PATH, "            if rev_v:\n                self.reverse_velocities(new_point)", "            if rev_v:\n                new_point.vel_rev = not phasepoint.vel_rev"),
     K("c15-keep-copy-inline", PATH, "            new_point = phasepoint.copy()\n            if rev_v:\n                self.reverse_velocities(new_point)\n            new_path.append(new_point)", "            new_point = phasepoint.copy()\n            new_path.append(new_point)\n            if rev_v:\n                self.reverse_velocities(new_point)"),
     K("c15-keep-system-copy-direct", SYSTEM, "        system_copy = copy(self)\n        return system_copy", "        return copy(self)"),
 ]
